@@ -176,6 +176,19 @@ def procstate():
           'decimal.context': repr(decimal.getcontext()), 'sys.int_max_str_digits': sys.get_int_max_str_digits(),
           'warnings.filters': len(warnings.filters), 'threads': threading.active_count(), 'sys.path': repr(sys.path),
           'sys.switchinterval': sys.getswitchinterval(), 'os.umask': None}
+    def deep(v, depth=4, seen=None):
+        """a description of a value that shows what is INSIDE objects and containers (a class-level object whose content a compilation
+        changed has the same identity and the same default repr)"""
+        seen = seen if seen is not None else set()
+        if isinstance(v, (int, float, str, bytes, bool, type(None))): return repr(v)[:120]
+        if id(v) in seen or depth == 0: return '<' + type(v).__name__ + '>'
+        seen = seen | {id(v)}
+        if isinstance(v, (list, tuple, set, frozenset)): return type(v).__name__ + '[' + ','.join(deep(x, depth - 1, seen) for x in list(v)[:40]) + ']'
+        if isinstance(v, dict): return '{' + ','.join(deep(k, depth - 1, seen) + ':' + deep(x, depth - 1, seen) for k, x in list(v.items())[:40]) + '}'
+        if isinstance(v, type) or callable(v) or isinstance(v, types.ModuleType): return '<' + getattr(v, '__name__', type(v).__name__) + '>'
+        d = getattr(v, '__dict__', None)
+        if isinstance(d, dict): return type(v).__name__ + deep(d, depth - 1, seen)
+        return '<' + type(v).__name__ + '>'
     for name, mod in sorted(sys.modules.items()):
         if not name.startswith('ducklingscript') or mod is None: continue
         for k, v in list(vars(mod).items()):
@@ -184,9 +197,9 @@ def procstate():
                 if v.__module__ != name: continue
                 for a, av in list(vars(v).items()):
                     if (a.startswith('__') and a.endswith('__')) or callable(av) or isinstance(av, (staticmethod, classmethod, property)): continue
-                    st[f'{name}.{k}.{a}'] = repr(av)[:400]
+                    st[f'{name}.{k}.{a}'] = deep(av)[:600]
             elif not callable(v) and not isinstance(v, types.ModuleType):
-                st[f'{name}.{k}'] = repr(v)[:400]
+                st[f'{name}.{k}'] = deep(v)[:600]
     return st
 
 
